@@ -41,7 +41,8 @@ ASSUMPTIONS = [
     "ZeroDivisionError of the whole call is accepted iff such an index exists anywhere in the signal (boundary indices included)",
     "list kernels never filter the boundary (the operator has no switch for them); kernel objects follow setFilterBoundary",
     "DiracKernel: all weight on the centre sample -> identity on non-NaN samples, undefined on NaN samples",
-    "tolerance 1e-9 * max|x| over the window + 1e-12",
+    "tolerance 1e-9 * max|x| over the window + 1e-12; window weights: sum within 1e-12 of 1, symmetric and non-negative within "
+    "1e-12 of the largest weight (the outermost sample of Cubic/Spheric at width k+tiny evaluates to +-1e-17)",
 ]
 
 
@@ -183,7 +184,7 @@ def check_window(k, spec):
         raise Violation("window-even-length", "%s has %d values" % (what, N))
     if N != 2 * int(math.floor(k.support)) + 1:
         raise Violation("window-length", "%s has %d values, support %r" % (what, N, k.support))
-    if any(isn(v) or v < 0 for v in vals):
+    if any(isn(v) for v in vals) or min(vals) < -1e-12 * max(vals):      # -1e-17 at the very edge of the support is rounding, not a negative kernel
         raise Violation("window-negative", "%s = %r" % (what, vals))
     if abs(math.fsum(vals) - 1.0) > 1e-12:
         raise Violation("window-sum", "%s sums to %r" % (what, math.fsum(vals)))
@@ -193,12 +194,10 @@ def check_window(k, spec):
     return vals
 
 
-def run_filter(case):
-    """-> list of (what, x, got) for every filtered signal, plus list of (what, before, after) for signals that must be untouched.
-    Raises ZeroDivisionError through."""
-    sig = derived(case["x"])
+def run_filter(case, sig, kobj):
+    """-> list of (what, x, got) for every filtered signal, plus list of (name, before, after) for signals that must stay
+    as they were.  A ZeroDivisionError of tracklib passes through."""
     tr = make_track(sig)
-    kobj, w, boundary = make_kernel(case["kernel"])
     via = case["via"]
     res, untouched = [], []
     if via == "feature":
@@ -209,6 +208,7 @@ def run_filter(case):
         d = case["dims"][0]
         tr.operate(Operator.FILTER, d, kobj, "b")
         res.append(("operate(FILTER,'%s',k,'b')" % d, sig[d], tr.getAnalyticalFeature("b")))
+        untouched.append(("a", sig["a"], tr.getAnalyticalFeature("a")))
     else:
         dims = list(case["dims"])
         ret = filter_seq(tr, kobj, dims)
@@ -220,49 +220,38 @@ def run_filter(case):
                 res.append(("filter_seq dim '%s'" % d, sig[d], getters[d]()))
             else:
                 untouched.append((d, sig[d], getters[d]()))
-    for d in ("x", "y", "z"):
-        if via != "seq":
-            untouched.append((d, sig[d], {"x": tr.getX, "y": tr.getY, "z": tr.getZ}[d]()))
-    return res, untouched, w, boundary
+    if via != "seq":
+        for d, get in (("x", tr.getX), ("y", tr.getY), ("z", tr.getZ)):
+            untouched.append((d, sig[d], get()))
+    return res, untouched
 
 
 def body_filter(case):
     x = case["x"]
     spec = case["kernel"]
+    via = case["via"]
+    if via not in ("feature", "coord", "seq") or not x:
+        return {"undef": True}
     if spec["kind"] == "list":
         w0 = spec["w"]
         if len(w0) % 2 != 1 or any(isn(v) or v < 0 for v in w0) or not any(v > 0 for v in w0):
             return {"undef": True}
-        N = len(w0)
-    elif spec["kind"] == "Dirac":
-        N = 3
-    else:
-        if not (spec["width"] >= 1):
-            return {"undef": True}
-        N = None
-    if N is not None and len(x) < N:
+    elif spec["kind"] != "Dirac" and not (spec["width"] >= 1):
         return {"undef": True}
-    if case["via"] == "seq" and spec["kind"] == "list" and len(spec["w"]) == 1:
-        pass          # documented shortcut: a one-value kernel returns the track unchanged (identity is the weighted mean)
-    # does an index without usable weight exist?  (decides whether ZeroDivisionError is acceptable)
+    kobj, w, boundary = make_kernel(spec)              # checks the sliding window of a kernel object on the way
+    wz = [0.0, 1.0, 0.0] if w is None else w           # Dirac: all weight on the centre sample
+    if len(x) < len(wz):
+        return {"undef": True}                         # signal shorter than the window: outside the quantifier
+    sig = derived(x)
+    dims = ["a"] if via == "feature" else list(case["dims"])
     try:
-        res, untouched, w, boundary = run_filter(case)
+        res, untouched = run_filter(case, sig, kobj)
     except ZeroDivisionError:
-        # window needed to decide: rebuild it (kernel objects) - cheap
-        if spec["kind"] == "list":
-            w = [float(v) for v in spec["w"]]
-        elif spec["kind"] == "Dirac":
-            w = [0.0, 1.0, 0.0]
-        else:
-            w = check_window(KINDS[spec["kind"]](spec["width"]), spec)
-        sig = derived(x)
-        dims = ["a"] if case["via"] == "feature" else list(case["dims"])
-        if len(x) >= len(w) and any(ref_filter(sig[d], w, True)[2] for d in dims):
+        # accepted iff some index (anywhere, boundary included) has no usable weight; otherwise it is a crash
+        if any(ref_filter(sig[d], wz, True)[2] for d in dims):
             return {"undef": True, "cls": ["undef-zero-usable-weight(ZeroDivisionError)"]}
         raise
-    if w is not None and len(x) < len(w):
-        return {"undef": True}
-    cls = ["via-" + case["via"], "kernel-" + spec["kind"]]
+    cls = ["via-" + via, "kernel-" + spec["kind"]]
     changed = und = 0
     const = False
     for what, xin, got in res:
@@ -295,7 +284,7 @@ def body_filter(case):
     if und:
         cls.append("undef-index-skipped")
     cls.append("changes-signal" if changed else "identity-on-this-signal")
-    return {"nt": changed > 0 and (has_nan or boundary or w is None or len(w) >= 3), "cls": cls}
+    return {"nt": changed > 0 and (has_nan or boundary or len(wz) >= 3), "cls": cls}
 
 
 # --- generators -----------------------------------------------------------------------------------
@@ -367,9 +356,15 @@ def strat_list():
     return st.tuples(_weights(), st.sampled_from([0, 1, 2, 3, 4, 5, 6, 8, 10, 14]), _route()).flatmap(with_signal)
 
 
+def _just_above_integer(hi):
+    """k + tiny: the outermost window sample sits at the very edge of the support (weights ~1e-17, rounding decides the sign)"""
+    return st.tuples(st.integers(1, hi), st.sampled_from([1e-15, 1e-12, 1e-9, 1e-6]), st.integers(1, 9)).map(
+        lambda t: t[0] * (1.0 + t[1] * t[2]))
+
+
 def _width():
     return st.one_of(st.integers(4, 16).map(lambda k: k / 4.0), st.sampled_from([1.0, 1.0, 1.5, 2.0, 3.0, 4.0]),
-                     st.floats(1.0, 4.0, allow_nan=False))
+                     st.floats(1.0, 4.0, allow_nan=False), _just_above_integer(3))
 
 
 def _win_len(kind, width):
@@ -400,7 +395,7 @@ def enum_windows(tier):
 
 
 def strat_windows():
-    return st.tuples(st.sampled_from(sorted(KINDS)), st.one_of(st.floats(1.0, 4.0), st.floats(1.0, 40.0))).map(
+    return st.tuples(st.sampled_from(sorted(KINDS)), st.one_of(st.floats(1.0, 4.0), st.floats(1.0, 40.0), _just_above_integer(40))).map(
         lambda t: {"kind": t[0], "width": t[1]})
 
 
